@@ -5,7 +5,7 @@
 // Copyright (c)  2024, Lukas Scheller lukasscheller@icloud.com
 /// (private) utility functions used when parsing
 use crate::parser::builder::Checkpoint;
-use crate::parser::error::SyntaxErr;
+use crate::parser::error::{SyntaxErr, SyntaxErrKind};
 use crate::parser::Parser;
 use crate::syntax::green::GreenNode;
 use crate::syntax::node_kind::NodeKind;
@@ -60,6 +60,13 @@ macro_rules! match_next_token_consume {
         }
     };
 }
+
+/// The maximum number of nodes that are open at the same time, which bounds the depth of the
+/// call stack of the parser and the depth of the tree. A level of nested expressions
+/// or statements opens two to four nodes. The deepest nesting within the IEEE libraries is 39,
+/// the stack that is needed to reach the limit is less than 1 MiB in an unoptimized build
+/// and less than 128 KiB in an optimized build.
+const MAX_OPEN_NODES: usize = 1024;
 
 pub enum LookaheadError {
     /// EOF was encountered before any of the desired `TokenKind`s was found.
@@ -217,11 +224,46 @@ impl Parser {
     pub(crate) fn start_node(&mut self, kind: NodeKind) {
         self.builder.start_node(kind);
         self.recovery.push(kind);
+        self.check_nesting_depth();
     }
 
     pub(crate) fn end_node(&mut self) {
+        if self.recovery.depth() == 1 {
+            self.push_deferred_tokens();
+        }
         self.recovery.pop();
         self.builder.end_node()
+    }
+
+    /// The parser is a recursive descent parser: its call stack grows with the number of
+    /// open nodes, and so does the call stack of everything that traverses the tree.
+    /// When the input is nested too deep, the token that opens yet another node is unexpected
+    /// and the rest of the input is set aside. Every production then sees the end of the
+    /// input and returns, instead of overflowing the stack which aborts the process.
+    fn check_nesting_depth(&mut self) {
+        if self.recovery.depth() <= MAX_OPEN_NODES || self.peek_token().is_eof() {
+            return;
+        }
+        if let Some(token) = self.token_stream.peek_next() {
+            let start = self.builder.current_pos() + token.leading_trivia().byte_len();
+            self.errors.push(SyntaxErr::new(
+                start..start + token.text_len(),
+                SyntaxErrKind::Unexpected(token.kind()),
+            ));
+        }
+        let rest = std::mem::replace(&mut self.token_stream, std::iter::empty().collect());
+        self.deferred_tokens = Some(rest);
+    }
+
+    /// The input that was set aside is put into the root node before it is closed,
+    /// so that every token is part of the tree.
+    fn push_deferred_tokens(&mut self) {
+        if let Some(rest) = self.deferred_tokens.take() {
+            self.token_stream = rest;
+            while self.token_stream.has_next() {
+                self.skip();
+            }
+        }
     }
 
     pub(crate) fn checkpoint(&mut self) -> Checkpoint {
@@ -233,6 +275,7 @@ impl Parser {
     pub(crate) fn start_node_at(&mut self, checkpoint: Checkpoint, kind: NodeKind) {
         self.builder.start_node_at(checkpoint, kind);
         self.recovery.push(kind);
+        self.check_nesting_depth();
     }
 
     pub(crate) fn end(self) -> (GreenNode, Vec<SyntaxErr>) {
